@@ -262,10 +262,59 @@ def check(ctx, stats, samples):
         samples.append({"base": base, "spellings": sp, "reference_outcomes": ref[:6]})
 
 
+def check_callable(ctx, stats):
+    """spellings nested in the parameter list of a Callable[...] annotation (a form outside the modelled normaliser):
+    property oracle alone -- normalize_type must agree for A / Annotated[A, ...] and for Any / object, and a function
+    holding both spellings must treat the second as a re-definition of the first"""
+    import collections.abc as cabc
+    import ovld as _ov
+    A = int
+    def probe(v: int) -> str:
+        return ""
+
+    def probe_o(v: object) -> str:
+        return ""
+
+    def probe2(v: int, w: object) -> str:
+        return ""
+    pairs = [(typing.Callable[[A], str], typing.Callable[[typing.Annotated[A, "meta"]], str], probe),
+             (cabc.Callable[[A], str], cabc.Callable[[typing.Annotated[A, "meta"]], str], probe),
+             (typing.Callable[[object], str], typing.Callable[[typing.Any], str], probe_o),
+             (typing.Callable[[A, object], str], typing.Callable[[typing.Annotated[A, 1], typing.Any], str], probe2)]
+    for a, b, pr in pairs:
+        stats["evaluations"] += 1
+        stats["callable_spellings"] += 1
+        na, nb = normalize_type(a, None), normalize_type(b, None)
+        if na != nb:
+            ctx.violation(f"normalize_type differs for the equivalent spellings {a} and {b}: {na} vs {nb}", {"callable": [repr(a), repr(b)]})
+            return
+        f = _ov.Ovld(name="f")
+
+        def m1(x: a):
+            return 1
+
+        def m2(x: b):
+            return 2
+
+        def m3(x: object):
+            return 3
+        for m in (m1, m2, m3):
+            f.register(m)
+
+        try:
+            r = f(pr)
+        except TypeError as e:
+            r = "TypeError:" + str(e)[:40]
+        if r != 2:
+            ctx.violation(f"a function holding the spellings {a} and {b} answers {r!r} where the later definition (2) replaces the earlier", {"callable": [repr(a), repr(b)], "dispatch": True})
+            return
+
+
 def run(ctx):
     stats = collections.Counter()
     stats["distinct"] = set()
     samples = []
+    check_callable(ctx, stats)
     n = 60 if ctx.quick() else 2500
     for _ in range(n):
         check(ctx, stats, samples)
